@@ -280,7 +280,7 @@ func init() {
 	ops = append(ops, opGen{"log", hasCommit, func(g *G) Step {
 		n, _ := chain(g.E.Cur, g.E.Cur.HeadCommit(), 1<<30)
 		l := len(n)
-		ks := []int{0, 1, 2, l - 1, l, l + 1, 1000, 5, 6, 4}
+		ks := []int{0, 1, 2, l - 1, l, l + 1, 1000, 5, 6, 4, 1 << 31, 1 << 62, 9223372036854775807}
 		i := g.Int(-1, len(ks)-1, "k")
 		if i < 0 {
 			return goit("log")
